@@ -68,6 +68,11 @@ fn visit(v: &Visit, st: &mut Stats) -> CaseResult {
             st.class_if(r == if r > k { 5 } else { 3 }, "castle-rook-stays");
             st.class_if((r > k && k == 5 && r == 6) || (r < k && k == 3 && r == 2), "castle-king-rook-swap");
         }
+        if let Some(pk) = m.promo {
+            let owned = v.pos.board.iter().filter(|&&x| x == Some((pk, v.pos.stm))).count();
+            st.class_if(owned >= 9, "promotion-to-a-kind-the-mover-owns-nine-or-more-of");
+            st.class_if(owned >= 10, "promotion-to-a-kind-the-mover-owns-ten-or-more-of");
+        }
         if cls == "capture" || cls == "promotion-capture" {
             let them = v.pos.stm.other();
             if rank_of(m.to) == them.back_rank() && v.pos.rights[them.idx()].contains(&Some(file_of(m.to) as u8)) {
@@ -89,7 +94,7 @@ pub fn run(ctx: &Ctx) -> Report {
     rep.assumptions = vec!["reference model make() encodes the rules of C02 (validated indirectly by the perft self-test, which exercises make on millions of nodes)".into()];
     rep.required_classes = vec![
         "castle", "en-passant", "promotion", "promotion-capture", "capture", "double-push", "king-move", "rook-leaves-right-square",
-        "capture-on-right-square", "castle-non-orthodox", "castle-king-stays", "castle-rook-stays", "halfmove-clock>=99", "fullmove-number-at-cap-black-to-move",
+        "capture-on-right-square", "castle-non-orthodox", "castle-king-stays", "castle-rook-stays", "halfmove-clock>=99", "fullmove-number-at-cap-black-to-move", "promotion-to-a-kind-the-mover-owns-ten-or-more-of",
     ];
     let cases = ctx.tier.scale(40_000, 25);
     rep.add(positions(ctx, "walk", cases, (2, 3, 6), 40, visit));
